@@ -101,3 +101,9 @@ package css_parser
 // apart; swapping it for the other list silently merges or drops them).
 //@ flow nested-group-rules-keep-the-parent-selectors.with C12: func=(*parser).lowerNestingInRuleWithContext ; in=css_parser ; site=store lowerNestingContext.parentSelectorsWithPseudo ; valuepath=context.parentSelectorsWithPseudo
 //@ flow nested-group-rules-keep-the-parent-selectors.no C12: func=(*parser).lowerNestingInRuleWithContext ; in=css_parser ; site=store lowerNestingContext.parentSelectorsNoPseudo ; valuepath=context.parentSelectorsNoPseudo
+
+// C12 ("rule merging ... never change what is rendered"): mangleRules merges a style rule into the PREVIOUS one when
+// their bodies are equal, which is only sound for ADJACENT rules (nothing in between can then win over one but not the
+// other). `prevNonComment` is its record of the previous rule: whenever rules are appended to the output the record must
+// be re-established before the loop continues, or the next rule is merged across everything that was just appended.
+//@ flow merge-candidate-follows-every-append C12: func=(*parser).mangleRules ; in=css_parser ; site=builtin append ; when-arg=0:*mangledRules* ; scenario=media_unwrap_merge ; then-updates=prevNonComment
